@@ -442,3 +442,38 @@ Proof.
 Qed.
 
 End Arity.
+
+(* ---------- an out-of-range integer anywhere in a value tree makes the whole encoding fail ---------- *)
+
+Definition is_container (tc : tcomp) : bool := match tc with TCElem _ _ _ _ _ => false | _ => true end.
+
+(* [sub y x]: y is x or sits below x through array / tuple nodes (the nodes whose children are encoded) *)
+Inductive sub : cval -> cval -> Prop :=
+| sub_refl x : sub x x
+| sub_child y c tc l v : is_container tc = true -> In c l -> sub y c -> sub y (CV (Some tc) l v).
+
+Lemma forall2_in {A B} (R : A -> B -> Prop) l l' a : Forall2 R l l' -> In a l -> exists b, R a b.
+Proof.
+  induction 1 as [|x y r r' Hxy _ IH]; [contradiction|]. intros [->|H]; [eauto|auto].
+Qed.
+
+Lemma encode_ok_sub y x : sub y x -> forall r, encodeABIData x = Ok r -> exists r', encodeABIData y = Ok r'.
+Proof.
+  induction 1 as [x|y c tc l v C I _ IH]; intros r H; [eauto|].
+  assert (P : exists cs, pass1 encodeABIData l = Ok cs).
+  { destruct tc; try discriminate; cbn [encodeABIData] in H; eapply children_ok_inv; exact H. }
+  destruct P as [cs P]. apply pass1_ok_all in P. destruct (forall2_in _ _ _ c P I) as [rc Hc]. eapply IH; exact Hc.
+Qed.
+
+Theorem out_of_range_leaf_rejected e s m k l z x :
+  (e = EInt \/ e = EUInt) -> tc_wf (int_tc e s m k) = true -> ~ in_range e m z ->
+  sub (CV (Some (int_tc e s m k)) l (GBigInt z)) x ->
+  forall r, encodeABIData x <> Ok r.
+Proof.
+  intros He W R S r H. destruct (encode_ok_sub _ _ S r H) as [r' E].
+  unfold tc_wf in W. apply andb_prop in W as [_ WF].
+  assert (Wm : wf_m m) by (destruct He as [-> | ->]; exact (wf_uint_m m WF)).
+  cbn [encodeABIData int_tc] in E. destruct He as [-> | ->]; cbn [encoder_of encode_elementary in_range] in *.
+  - destruct (signed_rejects m z Wm R) as [err E']. congruence.
+  - destruct (unsigned_rejects m z R) as [err E']. congruence.
+Qed.
